@@ -40,6 +40,7 @@ from mapproxy.util.py import cached_property, reraise
 from mapproxy.util.coverage import load_limited_to
 from mapproxy.util.ext.odict import odict
 from mapproxy.template import template_loader, bunch, recursive_bunch
+from mapproxy.util.escape import escape_html
 from mapproxy.service import template_helper
 from mapproxy.layer import DefaultMapExtent, MapExtent
 
@@ -327,7 +328,7 @@ class WMSServer(Server):
 
     def _service_md(self, map_request):
         md = dict(self.md)
-        md['url'] = map_request.url
+        md['url'] = escape_html(map_request.url)
         md['has_legend'] = self.root_layer.has_legend
         return md
 
